@@ -6,6 +6,7 @@ import (
 	"go/token"
 	"go/types"
 	"os"
+	"sort"
 	"strconv"
 	"strings"
 
@@ -671,6 +672,290 @@ func collapseModel(c *kit.Ctx) *collapseInfo {
 	return nil
 }
 
+// collapseKeyEval evaluates, for an element with an empty key and for one with a
+// set key, what the key of the first map lookup of the de-duplication loop is made
+// of: each component of the key is the element's Type ("T"), its raw Key ("K"), a
+// constant ("C:<v>") or something else ("?").  The key may be a composite literal,
+// a struct local patched afterwards, or the result of a helper (p.identity()).
+func collapseKeyEval(c *kit.Ctx, cf *kit.Func, loop *ast.RangeStmt, elem types.Object, firstIndex *ast.IndexExpr) (kind, msg, normC string) {
+	info := cf.Info()
+	results := map[bool][]string{}
+	for _, kempty := range []bool{false, true} {
+		st := &kit.Std{F: cf}
+		st.ShouldInline = func(f *kit.Func, call *ast.CallExpr) bool { return true }
+		isElem := func(e ast.Expr) bool {
+			e = ast.Unparen(st.Resolve(e))
+			if u, ok := e.(*ast.UnaryExpr); ok && u.Op == token.AND {
+				e = ast.Unparen(st.Resolve(u.X))
+			}
+			if sx, ok := e.(*ast.StarExpr); ok {
+				e = ast.Unparen(st.Resolve(sx.X))
+			}
+			return kit.ObjOf(info, e) == elem
+		}
+		// valOf: what a string expression holds
+		var valOf func(e ast.Expr, s kit.S) string
+		valOf = func(e ast.Expr, s kit.S) string {
+			e = ast.Unparen(st.Resolve(e))
+			if cs, ok := kit.ConstString(info, e); ok {
+				return "C:" + cs
+			}
+			switch x := e.(type) {
+			case *ast.SelectorExpr:
+				if isElem(x.X) {
+					switch x.Sel.Name {
+					case "Type":
+						return "T"
+					case "Key":
+						if s.Has("ek") {
+							return s.Get("ek")
+						}
+						return "K"
+					}
+					return "?"
+				}
+				if o := kit.ObjOf(info, ast.Unparen(st.Resolve(x.X))); o != nil && s.Has("f:"+kit.VarID(o)+"."+x.Sel.Name) {
+					return s.Get("f:" + kit.VarID(o) + "." + x.Sel.Name)
+				}
+			case *ast.Ident:
+				if o := kit.ObjOf(info, x); o != nil && s.Has("sv:"+kit.VarID(o)) {
+					return s.Get("sv:" + kit.VarID(o))
+				}
+			}
+			return "?"
+		}
+		// structVal: the components of a struct-valued expression, "name=value" per field
+		var structVal func(e ast.Expr, s kit.S) ([]string, bool)
+		structVal = func(e ast.Expr, s kit.S) ([]string, bool) {
+			e = ast.Unparen(st.Resolve(e))
+			switch x := e.(type) {
+			case *ast.CompositeLit:
+				stt, ok := info.TypeOf(x).Underlying().(*types.Struct)
+				if !ok {
+					if at, ok := info.TypeOf(x).Underlying().(*types.Array); ok {
+						_ = at
+						var out []string
+						for i, el := range x.Elts {
+							out = append(out, strconv.Itoa(i)+"="+valOf(el, s))
+						}
+						return out, true
+					}
+					return nil, false
+				}
+				vals := map[string]string{}
+				for i := 0; i < stt.NumFields(); i++ {
+					vals[stt.Field(i).Name()] = "C:"
+				}
+				for i, el := range x.Elts {
+					if kv, ok := el.(*ast.KeyValueExpr); ok {
+						if id, ok := kv.Key.(*ast.Ident); ok {
+							vals[id.Name] = valOf(kv.Value, s)
+						}
+					} else if i < stt.NumFields() {
+						vals[stt.Field(i).Name()] = valOf(el, s)
+					}
+				}
+				var out []string
+				for i := 0; i < stt.NumFields(); i++ {
+					out = append(out, stt.Field(i).Name()+"="+vals[stt.Field(i).Name()])
+				}
+				return out, true
+			case *ast.Ident:
+				o := kit.ObjOf(info, x)
+				if o == nil {
+					return nil, false
+				}
+				var out []string
+				pre := "f:" + kit.VarID(o) + "."
+				for _, k := range s.Keys() {
+					if strings.HasPrefix(k, pre) {
+						out = append(out, k[len(pre):]+"="+s.Get(k))
+					}
+				}
+				sort.Strings(out)
+				return out, len(out) > 0
+			case *ast.CallExpr:
+				if r := s.Get("ret:" + strconv.Itoa(int(x.Pos()))); r != "" {
+					return strings.Split(r, "\x00"), true
+				}
+			}
+			return nil, false
+		}
+		st.Eval.Atom = func(e ast.Expr) (string, bool, bool) {
+			// elem.Key == "" / len(elem.Key) == 0
+			a, b, op, ok := kit.CmpAtom(e)
+			if !ok || (op != token.EQL && op != token.NEQ) {
+				return "", false, false
+			}
+			isKey := func(x ast.Expr) bool {
+				sel, ok := ast.Unparen(st.Resolve(x)).(*ast.SelectorExpr)
+				return ok && sel.Sel.Name == "Key" && isElem(sel.X)
+			}
+			isLenKey := func(x ast.Expr) bool {
+				call, ok := ast.Unparen(x).(*ast.CallExpr)
+				if !ok || len(call.Args) != 1 {
+					return false
+				}
+				bi, ok := kit.Callee(info, call).(*types.Builtin)
+				return ok && bi.Name() == "len" && isKey(call.Args[0])
+			}
+			isEmpty := func(x ast.Expr) bool { cs, ok := kit.ConstString(info, x); return ok && cs == "" }
+			isZero := func(x ast.Expr) bool { v, ok := kit.ConstInt(info, x); return ok && v == 0 }
+			if (isKey(a) && isEmpty(b)) || (isKey(b) && isEmpty(a)) || (isLenKey(a) && isZero(b)) || (isLenKey(b) && isZero(a)) {
+				return "kempty", op == token.NEQ, true
+			}
+			return "", false, false
+		}
+		// `id.key == ""` on a tracked component follows what the component holds
+		st.Fold = func(e ast.Expr, s kit.S) (bool, bool) {
+			a, b, op, ok := kit.CmpAtom(e)
+			if !ok || (op != token.EQL && op != token.NEQ) {
+				return false, false
+			}
+			for _, pr := range [][2]ast.Expr{{a, b}, {b, a}} {
+				cs, isC := kit.ConstString(info, pr[1])
+				if !isC || cs != "" {
+					continue
+				}
+				sel, isSel := ast.Unparen(st.Resolve(pr[0])).(*ast.SelectorExpr)
+				if !isSel || isElem(sel.X) {
+					continue
+				}
+				switch v := valOf(pr[0], s); {
+				case v == "K":
+					return kempty == (op == token.EQL), true
+				case strings.HasPrefix(v, "C:"):
+					return (v == "C:") == (op == token.EQL), true
+				}
+			}
+			return false, false
+		}
+		var seen [][]string
+		st.OnNode = func(n ast.Node, s kit.S) []kit.S {
+			if s.Get("it") != "1" {
+				return []kit.S{s}
+			}
+			switch x := n.(type) {
+			case *ast.ReturnStmt:
+				if st.Cur() != cf && len(x.Results) == 1 {
+					if comps, ok := structVal(x.Results[0], s); ok {
+						// keyed by the call being evaluated
+						return []kit.S{s.Set("retv", strings.Join(comps, "\x00"))}
+					}
+					return []kit.S{s.Del("retv")}
+				}
+			case *ast.AssignStmt:
+				if len(x.Lhs) == len(x.Rhs) {
+					for i, l := range x.Lhs {
+						l = ast.Unparen(l)
+						// elem.Key = "0" (normalising the element itself)
+						if sel, ok := l.(*ast.SelectorExpr); ok {
+							if isElem(sel.X) && sel.Sel.Name == "Key" {
+								s = s.Set("ek", valOf(x.Rhs[i], s))
+								continue
+							}
+							if o := kit.ObjOf(info, ast.Unparen(st.Resolve(sel.X))); o != nil {
+								if _, isStr := info.TypeOf(sel).Underlying().(*types.Basic); isStr {
+									s = s.Set("f:"+kit.VarID(o)+"."+sel.Sel.Name, valOf(x.Rhs[i], s))
+								}
+							}
+							continue
+						}
+						o := kit.ObjOf(info, l)
+						if o == nil {
+							continue
+						}
+						if call, ok := ast.Unparen(x.Rhs[i]).(*ast.CallExpr); ok && s.Has("retv") && st.Cur().CalleeFunc(call) != nil {
+							for _, kv := range strings.Split(s.Get("retv"), "\x00") {
+								if j := strings.Index(kv, "="); j > 0 {
+									s = s.Set("f:"+kit.VarID(o)+"."+kv[:j], kv[j+1:])
+								}
+							}
+							s = s.Del("retv")
+							continue
+						}
+						if comps, ok := structVal(x.Rhs[i], s); ok {
+							for _, kv := range comps {
+								if j := strings.Index(kv, "="); j > 0 {
+									s = s.Set("f:"+kit.VarID(o)+"."+kv[:j], kv[j+1:])
+								}
+							}
+							continue
+						}
+						if b, ok := o.Type().Underlying().(*types.Basic); ok && b.Kind() == types.String {
+							s = s.Set("sv:"+kit.VarID(o), valOf(x.Rhs[i], s))
+						}
+					}
+				}
+			}
+			if st.Cur() == cf && n.Pos() <= firstIndex.Pos() && firstIndex.End() <= n.End() {
+				key := firstIndex.Index
+				if call, ok := ast.Unparen(key).(*ast.CallExpr); ok && s.Has("retv") && cf.CalleeFunc(call) != nil {
+					seen = append(seen, strings.Split(s.Get("retv"), "\x00"))
+				} else if comps, ok := structVal(key, s); ok {
+					seen = append(seen, comps)
+				} else {
+					seen = append(seen, []string{"?"})
+				}
+			}
+			return []kit.S{s}
+		}
+		st.OnBranch = func(br kit.Branch, s kit.S) (t, fl []kit.S, handled bool) {
+			if br.Kind == kit.BrRange && br.Range == loop {
+				if !s.Has("it") {
+					return []kit.S{s.Set("it", "1")}, nil, true
+				}
+				return nil, []kit.S{s.Set("it", "done")}, true
+			}
+			return nil, nil, false
+		}
+		c.P.Graph(cf).Run(kit.NewS().Set("a:kempty", tbool(kempty)), st.Client())
+		c.AddValuations(1)
+		if len(seen) == 0 {
+			return "undec", "the first map lookup of the de-duplication loop is not reached", ""
+		}
+		// all observations must agree
+		vals := map[string]bool{}
+		for _, comps := range seen {
+			var vs []string
+			for _, kv := range comps {
+				if j := strings.Index(kv, "="); j >= 0 {
+					vs = append(vs, kv[j+1:])
+				} else {
+					vs = append(vs, kv)
+				}
+			}
+			sort.Strings(vs)
+			vals[strings.Join(vs, " ")] = true
+		}
+		if len(vals) != 1 {
+			return "undec", "the identity key is built differently on different paths", ""
+		}
+		for v := range vals {
+			results[kempty] = strings.Fields(v)
+		}
+	}
+	has := func(l []string, v string) bool { return contains(l, v) }
+	set, empty := results[false], results[true]
+	for _, l := range [][]string{set, empty} {
+		if has(l, "?") {
+			return "undec", "the identity key has a component the checker cannot trace to the element's Type/Key (" + strings.Join(l, ", ") + ")", ""
+		}
+	}
+	if !has(set, "T") || !has(set, "K") || !has(empty, "T") {
+		return "viol", "the identity key is not built from both the element's Type and Key", ""
+	}
+	for _, v := range empty {
+		if strings.HasPrefix(v, "C:") && v != "C:" {
+			normC = v[2:]
+		}
+	}
+	if normC == "" || has(empty, "K") {
+		return "viol", "the key component is not normalised (\"\" -> canonical constant) before the map lookup: keys \"\" and the canonical key of one batch stay two points and become two rows", ""
+	}
+	return "ok", "Type and Key components, key normalised to \"" + normC + "\" before the lookup", normC
+}
+
 func c01Collapse(c *kit.Ctx, m *storeModel, r5 *kit.Rule) {
 	ci := collapseModel(c)
 	if ci == nil {
@@ -774,90 +1059,17 @@ func c01Collapse(c *kit.Ctx, m *storeModel, r5 *kit.Rule) {
 		oComp.Undecided("no map lookup in the loop")
 		return
 	}
-	idObj := kit.ObjOf(info, firstIndex.Index)
-	var lit *ast.CompositeLit
-	ast.Inspect(loop.Body, func(n ast.Node) bool {
-		if as, ok := n.(*ast.AssignStmt); ok && len(as.Lhs) == 1 && len(as.Rhs) == 1 && idObj != nil && kit.ObjOf(info, as.Lhs[0]) == idObj {
-			if cl, ok := ast.Unparen(as.Rhs[0]).(*ast.CompositeLit); ok {
-				lit = cl
-			}
-		}
-		return true
-	})
-	if cl, ok := ast.Unparen(firstIndex.Index).(*ast.CompositeLit); ok {
-		lit = cl
+	kind, msg, normC := collapseKeyEval(c, cf, loop, elem, firstIndex)
+	if normC != "" {
+		ci.normConst = normC
 	}
-	if lit == nil {
-		oComp.Undecided("map key is not built by a composite literal")
-		return
-	}
-	var fromType, fromKey bool
-	var keyFieldName string
-	for i, el := range lit.Elts {
-		val := el
-		name := strconv.Itoa(i)
-		if kv, ok := el.(*ast.KeyValueExpr); ok {
-			val = kv.Value
-			if id, ok := kv.Key.(*ast.Ident); ok {
-				name = id.Name
-			}
-		}
-		if sel, ok := ast.Unparen(val).(*ast.SelectorExpr); ok && kit.ObjOf(info, sel.X) == elem {
-			switch sel.Sel.Name {
-			case "Type":
-				fromType = true
-			case "Key":
-				fromKey = true
-				keyFieldName = name
-			}
-		}
-	}
-	if !fromType || !fromKey {
-		oComp.Violation("the identity key is not built from both the element's Type and Key")
-		return
-	}
-	// normalisation idiom dominating the lookup: if X == "" { X = C }, X = id.<keyField> or elem.Key (then before the literal)
-	normOK := false
-	g := c.P.Graph(cf)
-	ast.Inspect(loop.Body, func(n ast.Node) bool {
-		is, ok := n.(*ast.IfStmt)
-		if !ok || is.Else != nil {
-			return true
-		}
-		a, b, op, okc := kit.CmpAtom(is.Cond)
-		if !okc || op != token.EQL {
-			return true
-		}
-		if s, ok := kit.ConstString(info, b); !ok || s != "" {
-			return true
-		}
-		sel, ok := ast.Unparen(a).(*ast.SelectorExpr)
-		if !ok {
-			return true
-		}
-		target := false
-		if idObj != nil && kit.ObjOf(info, sel.X) == idObj && sel.Sel.Name == keyFieldName {
-			target = true
-		}
-		if kit.ObjOf(info, sel.X) == elem && sel.Sel.Name == "Key" && is.End() < lit.Pos() {
-			target = true
-		}
-		if !target {
-			return true
-		}
-		for _, st := range is.Body.List {
-			if as, ok := st.(*ast.AssignStmt); ok && len(as.Lhs) == 1 && kit.SameExpr(info, as.Lhs[0], a) {
-				if cst, ok := kit.ConstString(info, as.Rhs[0]); ok && cst != "" && g.NodeDominates(is.Cond, firstIndex) {
-					normOK = true
-				}
-			}
-		}
-		return true
-	})
-	if !normOK {
-		oComp.Violation("the key component is not normalised (\"\" -> canonical constant) before the map lookup: keys \"\" and the canonical key of one batch stay two points and become two rows")
-	} else {
-		oComp.OK("Type and Key components, key normalised to %q before the lookup", ci.normConst)
+	switch kind {
+	case "ok":
+		oComp.OK("%s", msg)
+	case "viol":
+		oComp.Violation("%s", msg)
+	default:
+		oComp.Undecided("%s", msg)
 	}
 	// (iv) keep-newest truth table
 	var existing types.Object
@@ -936,7 +1148,7 @@ func c01Collapse(c *kit.Ctx, m *storeModel, r5 *kit.Rule) {
 			init = init.Set("a:lt", tbool(val.order == "lt")).Set("a:eq", tbool(val.order == "eq")).Set("a:gt", tbool(val.order == "gt"))
 		}
 		// the early `len(*ps) <= 1` return is a legitimate exit: only look at paths that ran the loop
-		res := g.Run(init, st.Client())
+		res := c.P.Graph(cf).Run(init, st.Client())
 		c.AddValuations(1)
 		outs := map[string]bool{}
 		for _, e := range res.Exits {
